@@ -28,7 +28,7 @@ import warnings
 from vp import core
 
 D = os.path.join(core.WORK, "c19")
-RS = "\x1e"
+RS = "`"
 T = "http://www.w3.org/1999/02/22-rdf-syntax-ns#type"
 XSD = "http://www.w3.org/2001/XMLSchema#"
 
